@@ -22,6 +22,43 @@ type c01Writer struct {
 	// OpenedBy: -1 = opened before the history starts; otherwise the index of the
 	// (already running) writer that opens it after that writer's first write
 	OpenedBy int `json:"opened_by"`
+	// Via "readfrom": the writer hands its bytes over through stream.ReadFrom(src); src returns
+	// one piece (Sizes, cut to the caller's buffer) per Read and, with EOFWithData, the last
+	// piece together with io.EOF (as http bodies and decompressors do)
+	Via         string `json:"via,omitempty"`
+	EOFWithData bool   `json:"eof_with_data,omitempty"`
+}
+
+// c01Source serves a byte string in pieces
+type c01Source struct {
+	data        []byte
+	pieces      []int
+	eofWithData bool
+}
+
+func (s *c01Source) Read(p []byte) (int, error) {
+	if len(s.data) == 0 {
+		return 0, io.EOF
+	}
+	n := len(s.data)
+	for len(s.pieces) > 0 && s.pieces[0] <= 0 {
+		s.pieces = s.pieces[1:]
+	}
+	if len(s.pieces) > 0 && s.pieces[0] < n {
+		n = s.pieces[0]
+	}
+	if n > len(p) {
+		n = len(p)
+	}
+	copy(p, s.data[:n])
+	s.data = s.data[n:]
+	if len(s.pieces) > 0 {
+		s.pieces[0] -= n
+	}
+	if len(s.data) == 0 && s.eofWithData {
+		return n, io.EOF
+	}
+	return n, nil
 }
 
 type c01Args struct {
@@ -143,6 +180,34 @@ func init() {
 				<-start[wi]
 				opened := false
 				seq := 0
+				if a.Writers[wi].Via == "readfrom" {
+					for j := range a.Writers {
+						if a.Writers[j].OpenedBy == wi {
+							stream.Open()
+							close(start[j])
+						}
+					}
+					src := &c01Source{eofWithData: a.Writers[wi].EOFWithData}
+					for _, n := range a.Writers[wi].Sizes {
+						if n > 0 {
+							src.data = append(src.data, c01Payload(wi, seq, n-10)...)
+							seq++
+						}
+						src.pieces = append(src.pieces, n)
+					}
+					want := len(src.data)
+					got, err := stream.ReadFrom(src)
+					mu.Lock()
+					if err != nil {
+						out.WriteErrs = append(out.WriteErrs, "ReadFrom: "+err.Error())
+					} else if int(got) != want {
+						out.WriteErrs = append(out.WriteErrs, "ReadFrom reported "+itoa(int(got))+" bytes of the "+itoa(want)+" its source produced")
+					}
+					mu.Unlock()
+					out.CloseStamps[wi] = stamp.Add(1)
+					stream.Close()
+					return
+				}
 				for k, n := range a.Writers[wi].Sizes {
 					var p []byte
 					if n > 0 {
